@@ -35,10 +35,21 @@ Proof.
 Qed.
 
 (* the reference code is always among the displayed SRC fields *)
+Lemma error_details_form e ws a ed : error_details e ws a = Some ed -> ed = [] \/ exists j, ed = [(L "Error Details", j)].
+Proof.
+  unfold error_details. destruct (reg_find _ _ _) as [p|]; [|intros H; inversion H; left; reflexivity].
+  destruct (build_message ws p) as [[|c m]|]; try discriminate; [intros H; inversion H; left; reflexivity|].
+  destruct (hexword_descs ws (r_words p) []) as [ds|]; [|discriminate]. intros H. inversion H. right. eexists. reflexivity.
+Qed.
+
 Lemma render_src_has_refcode e c h cr s o : render_src e c h cr s = Some o ->
   exists r, obj_get o (L "Reference Code") = Some (JStr r).
 Proof.
-  unfold render_src. destruct (utf8_decode (s_ascii s)) as [ascii|]; [|discriminate].
+  unfold render_src. destruct (utf8_decode (s_ascii s)) as [ascii|]; [|discriminate]. cbv zeta.
+  destruct (if text_eqb (firstn 2 ascii) SRCType_bmcError || text_eqb (firstn 2 ascii) SRCType_powerError || text_eqb (firstn 2 ascii) SRCType_hostbootError
+            then error_details e (s_words s) ascii else Some []) as [ed|] eqn:Eed; [|discriminate].
+  assert (Hed: ed = [] \/ exists j, ed = [(L "Error Details", j)]).
+  { destruct (_ || _ || _); [eapply error_details_form; exact Eed|inversion Eed; left; reflexivity]. }
   set (co := match s_callouts s with None => Some [] | Some cs => _ end).
   destruct co as [col|]; [|discriminate].
   assert (G: forall tail, exists r, obj_get
@@ -54,9 +65,11 @@ Proof.
        (if text_eqb (firstn 2 ascii) SRCType_bmcError || text_eqb (firstn 2 ascii) SRCType_powerError || text_eqb (firstn 2 ascii) SRCType_hostbootError
         then [(L "Deconfigured", tf (has (nth 3 (s_words s) 0) ErrorStatusFlags_deconfigured));
               (L "Guarded", tf (has (nth 3 (s_words s) 0) ErrorStatusFlags_guarded))] else []) ++
+       ed ++
        [(L "Valid Word Count", js (x0 2 (s_wcount s))); (L "Reference Code", js (strip_ws ascii))] ++
        numbered_words 2 (src_hexwords s)) ++ tail) (L "Reference Code") = Some (JStr r)).
   { intros tail. exists (strip_ws ascii). unfold base_fields.
+    destruct Hed as [->|(j & ->)];
     destruct (text_eqb (firstn 2 ascii) SRCType_bmcError || text_eqb (firstn 2 ascii) SRCType_powerError);
     destruct (_ || text_eqb (firstn 2 ascii) SRCType_hostbootError); vm_compute obj_get; reflexivity. }
   destruct (allow_plugins c).
